@@ -96,7 +96,12 @@ func (tw *TimerWheel[K, V]) schedule(entry *Entry[K, V]) {
 	if entry.meta.wheelPrev != nil {
 		tw.deschedule(entry)
 	}
-	x, y := tw.findIndex(entry.expire.Load())
+	expire := entry.expire.Load()
+	// no deadline (removed by an update), keep the entry out of the wheel
+	if expire == 0 {
+		return
+	}
+	x, y := tw.findIndex(expire)
 	tw.wheel[x][y].PushFront(entry)
 }
 
@@ -133,7 +138,7 @@ func (tw *TimerWheel[K, V]) expire(index int, prevTicks int64, delta int64, remo
 		entry := list.Front()
 		for entry != nil {
 			next := entry.Next(WHEEL_LIST)
-			if entry.expire.Load() <= tw.nanos {
+			if expire := entry.expire.Load(); expire != 0 && expire <= tw.nanos {
 				tw.deschedule(entry)
 				remove(entry, EXPIRED)
 			} else {
